@@ -191,6 +191,9 @@ def check(ctx):
         r3.check(got == ['GI_TYPE_TAG_INT%d' % bits, 'GI_TYPE_TAG_UINT%d' % bits], 'enum width %d -> (U)INT%d' % (w, bits), GO,
                  tu.line(cs), 'an enumeration of width %d is stored as %s, expected INT%d/UINT%d' % (w, got, bits, bits), detail=got)
 
+    from . import c06
+    c06.alias_rule(ctx, r3)
+
     # ------------------------------------------------------------------ R4 embedded arrays
     r4 = ctx.rule('R4', 'a fixed-size array directly inside a field is embedded (not a pointer), whatever its other attributes', floor=2)
     gp = ctx.c.tu(GP)
@@ -210,3 +213,14 @@ def check(ctx):
     okcb = bool(cbs) and bool(cba) and all(gsa.impossible(GFA, e, [(r'->callback$', False)]) and gsa.allowed(GFA, e, [(r'->callback$', True)]) for e in cbs + cba)
     rets = [e for e in GFA.effects if e.kind == 'return' and gsa.can_hold(e.cond, dict((a_, True) for a_ in GFA.atoms() if a_.endswith('->callback')))]
     r4.check(okcb and rets and all(e.value in ('1', '!0') for e in rets), 'callback fields are pointers', GO, tu.line(gfa), 'callback field sizing changed: %s' % [(e.target, e.value) for e in cbs + cba])
+    # the scanner must hand the compiler the fixed size of EVERY fixed-size array, zero-length included (else the field is laid out as a pointer)
+    WT = gsa.summarise(ctx, 'girwriter', 'GIRWriter._write_type', opaque=('write_tag', 'tagcontext', '_write_generic', '_write_type', '_write_type_ref', '_type_to_name'))
+    tp_ = WT.P(1)
+    fs = [(c, gsa._unparse(v)) for c, k, v, n in gsa.list_items(WT, 'attrs') if k == 'fixed-size']
+    NONE_ = '%s.size is None' % tp_
+    arr_ = dict((a_, True) for c, t in fs for a_ in gsa.atoms(c) if a_ == 'isinstance(%s, ast.Array)' % tp_)
+    arr_.update(dict((a_, False) for c, t in fs for a_ in gsa.atoms(c) if a_ == 'isinstance(%s, ast.Varargs)' % tp_))
+    fsc = gsa.disj(*[c for c, t in fs])
+    r4.check(bool(fs) and gsa.equiv(gsa.assign(fsc, arr_), gsa.neg(gsa.atom(NONE_))), 'fixed-size written for every array that has a size (0 included)', 'giscanner/girwriter.py', WT.func.lineno,
+             'array/@fixed-size is written when %s: a zero-length trailing array (`guint8 data[0]`) loses its fixed-size, is compiled as a pointer and shifts size and offsets of the record'
+             % gsa.show(fsc)[:200], detail=gsa.show(fsc)[:200])
